@@ -76,9 +76,11 @@ alt('relative', 2, lambda c: {'type': 'relative_address', 'bytecode': {'value': 
 alt('numbc', 2, lambda c: {'type': 'numeric_bytecode', 'bytecode': {'size': 4, 'min': 0, 'max': 15}},
     lambda cat: ('VALUE', None) if cat[0] in ('num', 'key') else None)
 
+alt('EMPTY', 0, lambda c: {'type': 'empty', 'bytecode': {'value': c, 'size': 4}}, lambda cat: None)      # consumes no operand text
+
 NUMERIC_LIKE = {'numeric', 'numeric_va', 'address', 'numbc'}
 BRACKET_NUMERIC = {'ind_num', 'ind_num_va'}
-ALT_NAMES = list(ALTS)
+ALT_NAMES = [a for a in ALTS if a != 'EMPTY']
 
 
 def subsets(maxsize):
@@ -108,10 +110,16 @@ def match_variant(variant, cats):
     """variant: {'opcode', 'sets': [[(name,code)..]..], 'specific': [[(name,code)..]..] or None, 'disallowed': [names] or None}"""
     if variant.get('specific'):
         for combo in variant['specific']:
-            if len(combo) != len(cats):
+            written = [c for c in combo if c[0] != 'EMPTY']
+            if len(written) != len(cats):
                 continue
             got = []
-            for (name, code), cat in zip(combo, cats):
+            it = iter(cats)
+            for (name, code) in combo:
+                if name == 'EMPTY':
+                    got.append((name, code, None))       # an empty operand contributes its code and consumes no text
+                    continue
+                cat = next(it)
                 r = ALTS[name][2](cat)
                 if r is None:
                     got = None
@@ -120,6 +128,8 @@ def match_variant(variant, cats):
             if got is not None:
                 return got
     sets = variant['sets']
+    if not sets and variant.get('count'):
+        return None         # a variant that only lists explicit combinations
     if len(sets) != len(cats):
         return None
     got = []
@@ -152,13 +162,14 @@ def build_instruction(mn, variants):
     opsets = {}
     vcfgs = []
     for vi, v in enumerate(variants):
-        ops = {'count': len(v['sets'])}
+        ops = {'count': v.get('count', len(v['sets']))}
         names = []
         for si, s in enumerate(v['sets']):
             sname = f'{mn}_v{vi}s{si}'
             opsets[sname] = {'operand_values': {f'{name}{si}': ALTS[name][1](code) for name, code in s}}
             names.append(sname)
-        ops['operand_sets'] = {'list': names}
+        if names:
+            ops['operand_sets'] = {'list': names}
         if v.get('disallowed'):
             ops['operand_sets']['disallowed_pairs'] = [list(v['disallowed'])]
         if v.get('specific'):
@@ -276,8 +287,7 @@ def classify(variants, cats, got):
     for vi, v in enumerate(variants):
         m = match_variant(v, cats)
         if m is not None:
-            if v.get('specific') and any(len(c) == len(cats) and all(ALTS[n][2](cat) is not None for (n, _), cat in zip(c, cats))
-                                         for c in v['specific']):
+            if v.get('specific') and match_variant({'sets': [], 'count': 1, 'specific': v['specific']}, cats) is not None:
                 return 'specific-before-sets'
             return 'first-variant' if vi == 0 else 'later-variant'
         if v.get('disallowed') and match_variant(dict(v, disallowed=None), cats) is not None:
@@ -303,7 +313,7 @@ def shard(acc, tier, idx, n):
             continue
         group = []
         for k, (i, j) in enumerate(pairs[g0:g0 + G]):
-            c1 = [(nm, 8 + x) for x, nm in enumerate(subs[i])]
+            c1 = [(nm, 9 + x) for x, nm in enumerate(subs[i])]
             c2 = [(nm, 12 + x) for x, nm in enumerate(subs[j])]
             group.append((f't{k}', [{'opcode': 0xC1, 'sets': [c1]}, {'opcode': 0xC2, 'sets': [c2]}]))
         run_group(acc, group, one_texts, upper=True)
@@ -323,16 +333,48 @@ def shard(acc, tier, idx, n):
         for mode in ('plain', 'disallowed', 'specific'):
             group = []
             for k, (i, j, i2, j2) in enumerate(combos[g0:g0 + G]):
-                v1 = {'opcode': 0xD1, 'sets': [[(nm, 8 + x) for x, nm in enumerate(red[i])], [(nm, 10 + x) for x, nm in enumerate(red[j])]]}
-                v2 = {'opcode': 0xD2, 'sets': [[(nm, 12 + x) for x, nm in enumerate(red[i2])], [(nm, 14 + x) for x, nm in enumerate(red[j2])]]}
+                v1 = {'opcode': 0xD1, 'sets': [[(nm, 1 + x) for x, nm in enumerate(red[i])], [(nm, 5 + x) for x, nm in enumerate(red[j])]]}
+                v2 = {'opcode': 0xD2, 'sets': [[(nm, 9 + x) for x, nm in enumerate(red[i2])], [(nm, 12 + x) for x, nm in enumerate(red[j2])]]}
                 if mode == 'disallowed':
                     v1['disallowed'] = [red[i][0] + '0', red[j][0] + '1']
                 elif mode == 'specific':
                     # an explicitly listed combination in the *second* variant and in the first: listed ones come before sets
-                    v1['specific'] = [[(red[j][0], 1), (red[i][0], 2)]]
-                    v2['specific'] = [[(red[i2][0], 3), (red[j2][0], 4)]]
+                    v1['specific'] = [[(red[j][0], 15), (red[i][0], 4)]]
+                    v2['specific'] = [[(red[i2][0], 8), (red[j2][0], 0)]]
                 group.append((f't{k}', [v1, v2]))
             run_group(acc, group, two_texts)
+    # ---- explicit combinations with an empty operand (the "no operand written" form) ------------------------------
+    singles_alts = ['reg_a', 'reg_b', 'numeric', 'ind_num', 'enum_foo', 'ind_reg_a']
+    texts_e = [()] + [(t,) for t in ('a', 'b', '5', 'foo', '[5]', '[a]', 'sp')]
+    plans = []
+    for a1, a2 in itertools.product(singles_alts, repeat=2):
+        for order in (0, 1, 2):
+            plans.append((a1, a2, order))
+    for g0 in range(0, len(plans), G):
+        ctr += 1
+        if ctr % n != idx:
+            continue
+        group = []
+        for k, (a1, a2, order) in enumerate(plans[g0:g0 + G]):
+            empty_combo = [('EMPTY', 14)]
+            c1 = [(a1, 3)]
+            combos = [empty_combo, c1] if order == 0 else [c1, empty_combo] if order == 1 else [empty_combo, c1, [(a2, 6)]]
+            v1 = {'opcode': 0xF1, 'count': 1, 'sets': [[(a2, 9)]], 'specific': combos}
+            group.append((f't{k}', [v1, {'opcode': 0xF2, 'sets': [[('numeric', 12), ('reg_b', 13)]]}]))
+        run_group(acc, group, texts_e)
+    # two written operands + a trailing empty one, listed before another explicit combination
+    plans2 = list(itertools.product(singles_alts, repeat=3))
+    texts_e2 = [(x, y) for x in ('a', '5', 'foo') for y in ('b', '5', '[5]')] + [('a',), ()]
+    for g0 in range(0, len(plans2), G):
+        ctr += 1
+        if ctr % n != idx:
+            continue
+        group = []
+        for k, (a1, a2, a3) in enumerate(plans2[g0:g0 + G]):
+            v1 = {'opcode': 0xF3, 'count': 2, 'sets': [[(a1, 9)], [(a3, 10)]],
+                  'specific': [[(a1, 2), ('EMPTY', 14)], [(a2, 3), (a3, 4)]]}
+            group.append((f't{k}', [v1]))
+        run_group(acc, group, texts_e2)
     # ---- three variants, one slot --------------------------------------------------------------------------------
     tri = [s for s in subs if len(s) == 1] + [('reg_a', 'numeric'), ('enum_foo', 'numeric'), ('ind_num', 'ind_reg_a')]
     triples = list(itertools.product(range(len(tri)), repeat=3))
@@ -342,9 +384,9 @@ def shard(acc, tier, idx, n):
             continue
         group = []
         for k, (i, j, l) in enumerate(triples[g0:g0 + G]):
-            group.append((f't{k}', [{'opcode': 0xE1, 'sets': [[(nm, 8 + x) for x, nm in enumerate(tri[i])]]},
-                                    {'opcode': 0xE2, 'sets': [[(nm, 10 + x) for x, nm in enumerate(tri[j])]]},
-                                    {'opcode': 0xE3, 'sets': [[(nm, 12 + x) for x, nm in enumerate(tri[l])]]}]))
+            group.append((f't{k}', [{'opcode': 0xE1, 'sets': [[(nm, 1 + x) for x, nm in enumerate(tri[i])]]},
+                                    {'opcode': 0xE2, 'sets': [[(nm, 5 + x) for x, nm in enumerate(tri[j])]]},
+                                    {'opcode': 0xE3, 'sets': [[(nm, 9 + x) for x, nm in enumerate(tri[l])]]}]))
         run_group(acc, group, one_texts)
 
 
